@@ -13,8 +13,11 @@ func (ctx context) generatePrimaryTable(ta sql.Table, cols columnsCode) []gen.De
 	goTypeName := ta.TableName()
 	sqlTableName := gen.SQLTableName(goTypeName)
 
+	// the Go name of the id field : Id, ID, ...
+	idFieldName := ta.Columns[primaryIndex].Field.Field.Name()
+
 	// arguments of the UPDATE statement: the values (there may be none), then the id
-	updateArgs := "item." + ta.Columns[primaryIndex].Field.Field.Name()
+	updateArgs := "item." + idFieldName
 	if cols.goValueFieldsNoPrimary != "" {
 		updateArgs = cols.goValueFieldsNoPrimary + ", " + updateArgs
 	}
@@ -81,7 +84,7 @@ func Scan%[1]ss(rs *sql.Rows) (%[1]ss, error) {
 		if err != nil {
 			return nil, err
 		}
-		structs[s.Id] = s
+		structs[s.%[11]s] = s
 	}
 	if err = rs.Err(); err != nil {
 		return nil, err
@@ -129,6 +132,7 @@ func Delete%[1]ssByIDs(tx DB, ids ...%[2]s) ([]%[2]s, error) {
 		cols.goScanFields, cols.sqlColumnNamesNoPrimary, cols.sqlPlaceholdersNoPrimary, cols.goValueFieldsNoPrimary,
 		cols.columnsCount, updateArgs,
 		cols.sqlColumnNames,
+		idFieldName,
 	)
 
 	var out []gen.Declaration
@@ -183,12 +187,12 @@ func Delete%[1]ssByIDs(tx DB, ids ...%[2]s) ([]%[2]s, error) {
 						if dict == nil {
 							dict = make(%[2]ss)
 						}
-						dict[target.Id] = target
+						dict[target.%[4]s] = target
 						out[target.%[1]s] = dict
 					}
 					return out
 				}	
-				`, fieldName, goTypeName, keyTypeName)
+				`, fieldName, goTypeName, keyTypeName, idFieldName)
 			}
 
 			content += fmt.Sprintf(`
